@@ -58,6 +58,11 @@ pub enum Op {
         reads: Vec<Res>,
         writes: Vec<Res>,
     },
+    /// a registration attempt that reuses the name of the earlier op `dup_of`: it is rejected by a
+    /// panic, the caller catches it and goes on using the builder (C20)
+    Rejected {
+        dup_of: usize,
+    },
 }
 
 pub type Plan = Vec<Op>;
@@ -262,6 +267,7 @@ fn compile_builder(
         let mut path = prefix.to_vec();
         path.push(i);
         match op {
+            Op::Rejected { .. } => {}
             Op::Barrier => {
                 flat.builders[bid].n_barrier_ops += 1;
                 if since_barrier {
@@ -473,6 +479,8 @@ pub struct GenCfg {
     pub batch_decl: bool,
     /// thread-local systems inside batches declare resources (false: they access nothing)
     pub tl_in_batch_access: bool,
+    /// probability (in 1/16) of a rejected duplicate-name registration attempt
+    pub p_rejected: usize,
 }
 
 impl Default for GenCfg {
@@ -498,6 +506,7 @@ impl Default for GenCfg {
             max_n: 3,
             batch_decl: true,
             tl_in_batch_access: true,
+            p_rejected: 0,
         }
     }
 }
@@ -593,6 +602,12 @@ fn gen_builder(
             ops.push(Op::Barrier);
             continue;
         }
+        if !named.is_empty() && src.chance(cfg.p_rejected, 16) {
+            ops.push(Op::Rejected {
+                dup_of: named[src.pick(named.len())],
+            });
+            continue;
+        }
         if (depth == 0 || cfg.tl_in_batch) && src.chance(cfg.p_tl, 16) {
             let (mut reads, mut writes) = gen_access(src, cfg, universe);
             if depth > 0 && !cfg.tl_in_batch_access {
@@ -682,6 +697,14 @@ fn remove_op(ops: &[Op], i: usize) -> Vec<Op> {
         match &mut op {
             Op::Sys { deps, .. } => fix(deps),
             Op::Batch { deps, .. } => fix(deps),
+            Op::Rejected { dup_of } => {
+                if *dup_of == i {
+                    continue;
+                }
+                if *dup_of > i {
+                    *dup_of -= 1;
+                }
+            }
             _ => {}
         }
         out.push(op);
@@ -834,7 +857,7 @@ pub fn simplify_plan(ops: &[Op]) -> Vec<Vec<Op>> {
                     variants.push(o);
                 }
             }
-            Op::Barrier => {}
+            Op::Barrier | Op::Rejected { .. } => {}
         }
         for v in variants {
             let mut n = ops.to_vec();
@@ -854,7 +877,7 @@ pub fn plan_size(ops: &[Op]) -> usize {
                 writes,
                 ..
             } => 4 + deps.len() + reads.len() + writes.len(),
-            Op::Barrier => 1,
+            Op::Barrier | Op::Rejected { .. } => 1,
             Op::Tl { reads, writes } => 2 + reads.len() + writes.len(),
             Op::Batch { deps, inner, .. } => 6 + deps.len() + plan_size(inner),
         })
@@ -865,7 +888,7 @@ pub fn count_systems(ops: &[Op]) -> usize {
     ops.iter()
         .map(|op| match op {
             Op::Sys { .. } | Op::Tl { .. } => 1,
-            Op::Barrier => 0,
+            Op::Barrier | Op::Rejected { .. } => 0,
             Op::Batch { inner, .. } => 1 + count_systems(inner),
         })
         .sum()
